@@ -65,6 +65,10 @@ func c07dsym(c *Ctx) {
 		c.Count(fmt.Sprintf("dsym:eq=%s%s sym=%s%s plain=%s%s", bit(ab), bit(ba), bit(symS), bit(symE), bit(pa), bit(pb)))
 		c.Nontrivial(fmt.Sprintf("dsym/%s%s/%s%s/%s%s", bit(ab), bit(ba), bit(symS), bit(symE), bit(pa), bit(pb)))
 		in := map[string]string{"a": a, "b": b}
+		// (S) DateNode.Equals is symmetric unless Date.Equals is asymmetric on the start or end pair
+		if symS && symE && ab != ba {
+			c.Oracle("", "DateNode.Equals is not symmetric although Date.Equals is symmetric on the start dates and on the end dates", in, bit(ab)+bit(ba), "equal answers")
+		}
 		// (S) on plain values the relation is symmetric …
 		if pa && pb && ab != ba {
 			c.Oracle("", "DateNode.Equals is not symmetric on two DATE values without a before/after constraint", in, bit(ab)+bit(ba), "equal answers")
@@ -406,8 +410,222 @@ func c07copySeq(c *Ctx, i int) {
 	}
 }
 
+// ---- Filter with a tag filter into another document ----
+
+func c07prune(t *TNode, keep func(string) bool) *TNode {
+	if !keep(t.Tag) {
+		return nil
+	}
+	out := &TNode{Tag: t.Tag, Value: t.Value, Ptr: t.Ptr}
+	for _, k := range t.Kids {
+		if p := c07prune(k, keep); p != nil {
+			out.Kids = append(out.Kids, p)
+		}
+	}
+	return out
+}
+
+func c07filterDoc(c *Ctx, text string, k int, same, white bool, tags []string) {
+	doc, err := gedcom.NewDocumentFromString(text)
+	if err != nil {
+		return
+	}
+	w := &c07world{ids: map[gedcom.Node]int{}, docs: []*gedcom.Document{doc}}
+	for _, rec := range doc.Nodes() {
+		w.number(rec)
+	}
+	if k >= len(w.objs) {
+		return
+	}
+	n := w.objs[k]
+	_, rec := w.recordOf(n)
+	// every role node below n must belong to the FAM record n lives in (model: ctxOf)
+	for _, x := range c07preorderNodes(gedcom.Nodes{n}) {
+		if fn, isRole := x.(gedcom.FamilyNoder); isRole && gedcom.Node(fn.Family()) != rec {
+			c.Count("filterdoc:family-outside-record")
+			return
+		}
+	}
+	forest := abstractNodes(doc.Nodes())
+	var ht []string
+	for _, t := range tags {
+		ht = append(ht, hexs(t))
+	}
+	req := strings.TrimSpace(fmt.Sprintf("filterdoc %s %d %s", bit(white), len(tags), strings.Join(ht, " "))) +
+		fmt.Sprintf(" %s %d %s", bit(same), k, encForest(forest))
+	dst := gedcom.NewDocument()
+	if same {
+		dst = doc
+	}
+	w.docs = []*gedcom.Document{dst}
+	var gtags []gedcom.Tag
+	for _, t := range tags {
+		gtags = append(gtags, gedcom.TagFromString(t))
+	}
+	fn := gedcom.BlacklistTagFilter(gtags...)
+	name := "BlacklistTagFilter"
+	if white {
+		fn = gedcom.WhitelistTagFilter(gtags...)
+		name = "WhitelistTagFilter"
+	}
+	keep := func(tag string) bool {
+		in := false
+		for _, t := range tags {
+			if t == tag {
+				in = true
+			}
+		}
+		return in == white
+	}
+	recsBefore := append(gedcom.Nodes{}, doc.Nodes()...)
+	var recText []string
+	for _, r := range recsBefore {
+		recText = append(recText, r.GEDCOMString(0))
+	}
+	dstBefore := len(dst.Nodes())
+	in := map[string]string{"case": fmt.Sprintf("Filter(object %d of the document, %s, %s(%s))", k,
+		map[bool]string{true: "the same document", false: "an empty document"}[same], name, strings.Join(tags, ", ")),
+		"document": text, "node": n.GEDCOMString(0), "request": req}
+	var res gedcom.Node
+	panicked := func() (p bool) {
+		defer func() {
+			if r := recover(); r != nil {
+				p = true
+			}
+		}()
+		res = gedcom.Filter(n, dst, fn)
+		return false
+	}()
+	c.Eval()
+	label := fmt.Sprintf("filterdoc:%s:same=%v:%s", name, same, n.Tag().Tag())
+	if panicked {
+		c.Tie(req, "panic")
+		c.Count(label + "=panic")
+		c.Oracle("", "Filter with a tag filter panics for a node of a decoded document", in, "panic", "a filtered copy")
+		return
+	}
+	want := c07prune(abstractNode(n), keep)
+	if gedcom.IsNil(res) {
+		c.Tie(req, "nil")
+		c.Count(label + "=nil")
+		if want != nil {
+			c.Oracle("", "Filter returned nil although the root's tag is kept", in, "nil", c07text(want))
+		}
+		return
+	}
+	first := len(w.objs)
+	fresh := true
+	resNodes := c07preorderNodes(gedcom.Nodes{res})
+	for _, x := range resNodes {
+		if _, old := w.ids[x]; old {
+			fresh = false
+		}
+	}
+	w.number(res)
+	for _, x := range dst.Nodes() {
+		if _, known := w.ids[x]; !known {
+			w.number(x)
+		}
+	}
+	var fam []string
+	ndoc := 0
+	for _, x := range resNodes {
+		if f, isRole := x.(gedcom.FamilyNoder); isRole {
+			fam = append(fam, w.id(f.Family()))
+			if j, known := w.ids[gedcom.Node(f.Family())]; known && j < first {
+				c.Oracle("", "a role node of a filtered copy still belongs to a family that existed before", in, fmt.Sprint("object ", j), "a family added to the destination")
+			}
+		}
+		switch t := x.(type) {
+		case *gedcom.IndividualNode:
+			ndoc++
+			if t.Document() != dst {
+				c.Oracle("", "an INDI node of a filtered copy is not attached to the destination document", in, "another document", "the destination")
+			}
+		case *gedcom.FamilyNode:
+			ndoc++
+			if t.Document() != dst {
+				c.Oracle("", "a FAM node of a filtered copy is not attached to the destination document", in, "another document", "the destination")
+			}
+		}
+	}
+	added := len(dst.Nodes()) - dstBefore
+	c.Tie(req, fmt.Sprintf("ok first=%d n=%d t=%s fam=%s doc=%d %s", first, len(resNodes), encTree(abstractNode(res)), c07nats(fam), ndoc, w.showDoc(dst)))
+	c.Count(fmt.Sprintf("%s=ok added=%d", label, added))
+	c.Nontrivial(fmt.Sprintf("filterdoc/%v/%v/%s/kept=%d of %d/added=%d", white, same, n.Tag().Tag(), len(resNodes), len(c07preorderNodes(gedcom.Nodes{n})), added))
+	// (S)
+	if !fresh {
+		c.Oracle("", "a filtered copy shares a node with the source document", in, "shared node", "only new nodes")
+	}
+	if want == nil || c07text(want) != c07text(abstractNode(res)) {
+		exp := "nil"
+		if want != nil {
+			exp = c07text(want)
+		}
+		c.Oracle("", "Filter with a tag filter did not return the tree without the subtrees of the rejected tags", in, c07text(abstractNode(res)), exp)
+	}
+	now := doc.Nodes()
+	if len(now) < len(recsBefore) || (!same && len(now) != len(recsBefore)) {
+		c.Oracle("", "filtering changed the record list of the source document", in, fmt.Sprint(len(now)), fmt.Sprint(len(recsBefore)))
+		return
+	}
+	for i, r := range recsBefore {
+		if now[i] != r || r.GEDCOMString(0) != recText[i] {
+			c.Oracle("", "filtering modified a record of the source document", in, now[i].GEDCOMString(0), recText[i])
+			break
+		}
+	}
+	for _, x := range dst.Nodes()[dstBefore:] {
+		if _, isFam := x.(*gedcom.FamilyNode); !isFam || len(x.Nodes()) != 0 {
+			c.Oracle("", "filtering added something other than an empty family record to the destination", in, x.GEDCOMString(0), "0 @…@ FAM")
+		}
+	}
+}
+
+func c07filterStream(c *Ctx) {
+	r := c.R
+	pool := []string{"NAME", "BIRT", "DATE", "HUSB", "WIFE", "CHIL", "NOTE", "FAM", "INDI", "MARR", "RESI", "EVEN", "FAMS", "_UID", "SOUR", "TITL", "PLAC"}
+	n := c.N(400, 8000)
+	for i := 0; i < n; i++ {
+		text := c07document2(r)
+		if r.Chance(1, 3) {
+			text = c07document(r)
+		}
+		doc, err := gedcom.NewDocumentFromString(text)
+		if err != nil {
+			continue
+		}
+		all := c07preorderNodes(doc.Nodes())
+		if len(all) == 0 {
+			continue
+		}
+		k := r.Intn(len(all))
+		if r.Chance(1, 2) { // prefer records
+			for j, x := range all {
+				for _, rec := range doc.Nodes() {
+					if x == rec && r.Chance(1, 3) {
+						k = j
+					}
+				}
+			}
+		}
+		white := r.Bool()
+		var tags []string
+		nt := r.Intn(4)
+		if white {
+			nt = 3 + r.Intn(8)
+			tags = append(tags, all[k].Tag().Tag())
+		}
+		for j := 0; j < nt; j++ {
+			tags = append(tags, r.Pick(pool))
+		}
+		c07filterDoc(c, text, k, r.Bool(), white, tags)
+	}
+}
+
 func c07round4(c *Ctx) {
 	c07dsym(c)
+	c07filterStream(c)
 	n := c.N(600, 12000)
 	for i := 0; i < n; i++ {
 		c07copySeq(c, i)
